@@ -393,8 +393,43 @@ def text_encode(it, fr, text, enc):
         return SBytes('enc', src=text, encoding=enc)
     kwkey = text.json_kw
     e = str(enc).lower().replace('_', '-')
+    if dict(kwkey).get('ensure_ascii', True) is False and e in ('utf-8', 'utf8', 'ascii', 'latin-1'):
+        # raw (unescaped) text: the strict encoder refuses lone surrogates (and, for ascii / latin-1, everything above)
+        bad = _any_char_in(it, obj, (lambda c: CT.cp('surrogate', c)) if e in ('utf-8', 'utf8') else (lambda c: c >= (128 if e == 'ascii' else 256)))
+        if bad is not None and it.eng.fork(bad):
+            raise PyExc(UnicodeEncodeError(e, '', 0, 1, 'surrogates not allowed' if e in ('utf-8', 'utf8') else 'ordinal not in range'))
     flavour = 'canon' if (kwkey == CANON_KW and e in ('utf-8', 'utf8')) else f'dumps{kwkey}/{e}'
     return canon_of(it, obj, flavour)
+
+
+def _any_char_in(it, v, pred):
+    """z3 Bool: some string (key or leaf) inside the JSON value has a character satisfying pred; None if nothing symbolic / matching"""
+    from .models import any_char
+    out = []
+
+    def walk(x, guard):
+        if isinstance(x, SAny):
+            for g, y in models.alt_cases(x):
+                walk(y, z3.And(guard, g))
+        elif isinstance(x, SStr):
+            out.append(z3.And(guard, any_char(x, pred)))
+        elif isinstance(x, str):
+            if any(z3.is_true(z3.simplify(pred(z3.IntVal(ord(ch))))) for ch in x):
+                out.append(guard)
+        elif isinstance(x, (dict, SDict)):
+            for p, k, y in models.dict_slots(x):
+                walk(k, z3.And(guard, zb(p)))
+                walk(y, z3.And(guard, zb(p)))
+        elif isinstance(x, SList):
+            for i, y in enumerate(x.items):
+                walk(y, z3.And(guard, x.n > i))
+        elif isinstance(x, (list, tuple)):
+            for y in x:
+                walk(y, guard)
+        elif isinstance(x, Opaque) and x.what == 'payload':
+            out.append(z3.And(guard, it.eng.uf('HasOddChar', [x], lambda a, b: z3.BoolVal(a is b))))
+    walk(v, z3.BoolVal(True))
+    return zor(out) if out else None
 
 
 def json_loads_value(it, fr, content):
@@ -572,6 +607,7 @@ def sp_open(it, fr, file, mode='r', *a, **kw):
     f = Opaque(io.BufferedIOBase if binary else io.TextIOBase, 'file', key)
     f.mode = mode
     f.binary = binary
+    f.encoding = kw.get('encoding') or (a[1] if len(a) > 1 else None)
     f.closed = False
     f.pos0 = True
     return f
@@ -619,6 +655,10 @@ def file_method(it, fr, f, attr, args, kw):
             raise PyExc(TypeError(f"a bytes-like object is required, not '{t.__name__}'"))
         if not f.binary and not issubclass(t, str):
             raise PyExc(TypeError(f'write() argument must be str, not {t.__name__}'))
+        if not f.binary and getattr(data, 'json_of', None) is not None:
+            # text written to a text-mode file is encoded by the file object: part of serialising the result, and it can fail
+            it.eng.event('serialize', how='encode at write')
+            data = text_encode(it, fr, data, getattr(f, 'encoding', None) or 'utf-8')
         cur = fs.files.get(f.ident)
         empty = cur in (b'', '', None)
         if getattr(f, 'inplace', False) and not empty:
